@@ -322,6 +322,10 @@ func main() {
 			break
 		}
 	}
+	if e.lost == "" && r.Replay == "" {
+		e.restartPhase(md)
+	}
+	m = e.m
 	r.Count("background_writes_refused", atomic.LoadInt64(&e.guard.rejected))
 	r.Floor(int64(histories))
 	// hooks that must have been reached for the verdict to mean anything
@@ -329,7 +333,7 @@ func main() {
 		m.Close()
 		r.Finish()
 	}
-	for _, c := range []string{"hook_VerifCheckStores", "hook_VerifBuryStore", "hook_VerifProcessRegionHeartbeat", "faults_injected", "race_executions_heartbeat-race", "race_executions_lifecycle-race", "race_executions_address-race", "race_faults_injected", "race_heartbeat_flushes", "scale_worlds", "reloads", "placements_on_unregistered_store_id", "transition_Up->Offline", "transition_Offline->Tombstone", "transition_Offline->Up", "tombstone_grpc_requests", "record_deleted"} {
+	for _, c := range []string{"hook_VerifCheckStores", "hook_VerifBuryStore", "hook_VerifProcessRegionHeartbeat", "faults_injected", "race_executions_heartbeat-race", "race_executions_lifecycle-race", "race_executions_address-race", "race_faults_injected", "race_heartbeat_flushes", "scale_worlds", "one_field_requests", "server_restarts", "reloads", "placements_on_unregistered_store_id", "transition_Up->Offline", "transition_Offline->Tombstone", "transition_Offline->Up", "tombstone_grpc_requests", "record_deleted"} {
 		if r.Counter(c) == 0 {
 			r.Inconclusive("nothing observed for %s", c)
 		}
